@@ -24,7 +24,10 @@ KWAGRS_TEMPLATE = "{% for key, value in kwargs.items() %}" \
 keywords_set = set(keyword.kwlist)
 builtins_set = set(__builtins__.keys())
 other_common_names_set = {'datetime', 'time', 'date', 'defaultdict', 'schema'}
-blacklist_words = frozenset(keywords_set | builtins_set | other_common_names_set)
+# names the generated module itself imports: a class or field with one of these names would shadow the import
+imported_names_set = {'Any', 'Dict', 'List', 'Literal', 'Optional', 'Tuple', 'Union', 'BaseModel', 'Field', 'SQLModel',
+                      'attr', 'dataclass', 'field', 'optional', 'convert_strings', 'ClassType'}
+blacklist_words = frozenset(keywords_set | builtins_set | other_common_names_set | imported_names_set)
 ones = ['', 'one', 'two', 'three', 'four', 'five', 'six', 'seven', 'eight', 'nine']
 
 
